@@ -12,7 +12,7 @@
 
    Domain: evo_dom / no_retyped_variant as in C08; no_keep_arg S: no declaration is both keep and is_arg -- finding F-13a:
    such a type takes `remaining - 2` bytes of the whole buffer once its known fields are read (C13_is_arg_refuted). *)
-From PVGen Require Import Gen GenKeep GenSpec EvoSpec KeepSpec Proofs.GenBase Proofs.KeepP Proofs.KeepSizeP Proofs.KeepTopP Proofs.KeepViewP Proofs.KeepRetP Proofs.KeepMainP.
+From PVGen Require Import Gen GenKeep GenSpec EvoSpec KeepSpec Proofs.GenBase Proofs.KeepP Proofs.KeepSizeP Proofs.KeepTopP Proofs.KeepViewP Proofs.KeepRetP Proofs.KeepWtP Proofs.KeepMainP.
 From PV Require Import Proofs.HeaderP.
 Open Scope Z_scope.
 
@@ -76,9 +76,9 @@ Print Assumptions C13_retain_layout.
 (* decode with retention, then the emitted encode: the re-encoded message is, byte for byte, the runtime writer's encoding
    of [reenc S T tv] (KeepSpec.v: per keeping struct the known fields in declaration order, IDL defaults filled, then the
    ignored fields exactly as they were, in wire order; nested values likewise), so the self-describing reader of the
-   runtime (Interp.read_val, C01) reads it back to exactly that tree; size() agrees with the bytes written.
-   [wt (reenc S T tv)] is decidable; it follows from wt tv and wf_schema S except for the announced element type of an
-   EMPTY container whose declared element type has no wire type (void) -- that implication is not proved here.
+   runtime (Interp.read_val, C01) reads it back to exactly that tree, which is well-typed; size() agrees with the bytes
+   written.  empty_elems_ok (KeepSpec.v, decidable): the declared element types of the EMPTY containers among the known
+   fields have a wire type (reenc announces the declared element type; void elements cannot be declared in IDL).
 
    FULL statement of the property's last clause (not proved, see NOTES.md): for every schema W that extends S,
    view W T (reenc S T tv) = view W T tv up to the permitted default filling -- "a reader with the full schema recovers
@@ -89,13 +89,14 @@ Theorem C13_retain_partial : forall S p k T tv g,
   wt tv = true -> ttype_of tv = ttype_of_ty S T ->
   evo_dom S T tv = true -> no_retyped_variant S T tv = true ->
   forall c, w_pend c = None ->
-  viewk S p k c T tv = Ok g -> wt (reenc S T tv) = true ->
+  viewk S p k c T tv = Ok g -> empty_elems_ok S T tv = true ->
   exists ss b,
     write_val p k tv c = Ok (ss, c) /\
     (forall fuel r rcx, (vsize tv <= fuel)%nat -> idle rcx ->
        gen_decode_keep S p fuel T (mkS (flat ss ++ r) rcx) = Ok (g, mkS r rcx)) /\
     enc_ty S p k T g c = Ok (b, c) /\
     size_ty S p T g c = Ok (Z.of_nat (length (flat b)), c) /\
+    wt (reenc S T tv) = true /\
     (forall fuel r rcx, (vsize (reenc S T tv) <= fuel)%nat -> idle rcx ->
        read_val p fuel (ttype_of tv) (mkS (flat b ++ r) rcx) = Ok (reenc S T tv, mkS r rcx)).
 Proof. exact keep_retain_trip. Qed.
